@@ -1702,6 +1702,77 @@ def layout_fits(data, idx, ln, kinds, ver):
     return (z3.And(conj) if conj else z3.BoolVal(True)), m
 
 
+# strings_to_end(k): the recursive spec function "the rest of the body, read as consecutive groups of k strings"
+# (uninterpreted; only its definitional unfolding at one position is ever assumed):
+#     items_k(data, m, len) = []                                             if m == len
+#                           = [(k strings at m)] ++ items_k(data, m', len)   if they fit, m' behind them
+ITEMS_FN = {1: z3.Function('sftp_strings_to_end', BytesS, IntS, IntS, z3.SeqSort(BytesS)),
+            2: z3.Function('sftp_string_pairs_to_end', BytesS, IntS, IntS, z3.SeqSort(sort_of('tuple[bytes,bytes]')))}
+
+
+def _k_strings_at(data, m, ln, k):
+    """(they fit, the k strings, position behind them)"""
+    conj, vals = [], []
+    for _ in range(k):
+        n = unbe(z3.Extract(data, m, 4))
+        conj += [m + 4 <= ln, m + 4 + n <= ln]
+        vals.append(z3.Extract(data, m + 4, n))
+        m = m + 4 + n
+    return z3.And(conj), vals, m
+
+
+def items_unfold(data, m, ln, k):
+    """definitional instance of items_k at position m"""
+    f = ITEMS_FN[k]
+    fits, vals, nxt = _k_strings_at(data, m, ln, k)
+    elem = vals[0] if k == 1 else tuple_sort(parse_type('tuple[bytes,bytes]')).constructor(0)(*vals)
+    return [z3.Implies(m == ln, f(data, m, ln) == z3.Empty(f.range())),
+            z3.Implies(z3.And(m < ln, fits), f(data, m, ln) == z3.Concat(z3.Unit(elem), f(data, nxt, ln)))]
+
+
+def _packet_loop(local, items=None, k=1):
+    """LoopSpec of a `while <packet>:` loop that reads from the packet: the packet object is re-created at the cut
+    (havoc_locals); invariant: same payload, read position inside it and not moved back - and, when the loop
+    collects what it reads into the list `items`:  items ++ items_k(rest of the body) == items_k(rest at loop entry)"""
+    def _rec(st, c):
+        v = st.env.get(local)
+        return st.rec(v) if isinstance(v, VRef) else None
+
+    def _list(c, st):
+        v = c.ex.deref(st, st.env[items])
+        if isinstance(v, VList):
+            t = parse_type('seq[bytes]' if k == 1 else 'seq[tuple[bytes,bytes]]')
+            return to_z3(v, t)
+        return v.z
+
+    def inv(c):
+        p = c.localv(local)
+        r = c.new_state.rec(p)
+        e = _rec(c.loop_entry, c) if c.loop_entry is not None else None
+        conj = [packet_wf(c, p)]
+        if e is not None:
+            conj += [r.fields['_packet'].z == e.fields['_packet'].z, r.fields['_idx'].z >= e.fields['_idx'].z]
+            if items is not None:
+                f = ITEMS_FN[k]
+                d, ln = r.fields['_packet'].z, r.fields['_len'].z
+                conj.append(z3.Concat(_list(c, c.new_state), f(d, r.fields['_idx'].z, ln)) ==
+                            z3.Concat(_list(c, c.loop_entry), f(e.fields['_packet'].z, e.fields['_idx'].z,
+                                                                e.fields['_len'].z)))
+        return z3.And(conj)
+
+    def lemmas(c):
+        if items is None:
+            return []
+        head = getattr(c, 'head', None)
+        r = _rec(head, c) if head is not None else None
+        if r is None:
+            return []
+        return items_unfold(r.fields['_packet'].z, r.fields['_idx'].z, r.fields['_len'].z, k)
+    ls = LoopSpec(invariant=inv, lemmas=lemmas if items is not None else None)
+    ls.havoc_locals = [local]
+    return ls
+
+
 def _mk_request_prefix(key, name):
     def layout(c):
         """(well-formed, end) of the request body for the session's version, None where no layout is tabled"""
@@ -1728,6 +1799,16 @@ def _mk_request_prefix(key, name):
         """the prefix completes only for a body that is exactly the version's layout (v6: begins with it), and then
         the read position is behind the last field: no truncated body is accepted"""
         lw = layout(c)
+        if lw is None and key == FXP_REALPATH and c.has_local('compose_paths') and c.has_local('packet'):
+            # v6 (filexfer-13 8.9): string path, byte control, then compose-path strings to the end of the body:
+            # all of them, each exactly once, in order; nothing is left unread
+            r0 = c.old_state.rec(c.argv('packet'))
+            data, idx, ln = r0.fields['_packet'].z, r0.fields['_idx'].z, r0.fields['_len'].z
+            fits, m = layout_fits(data, idx, ln, ['s', 'b'], c.old('_version'))
+            got = c.ex.deref(c.new_state, c.localv('compose_paths'))
+            gz = got.z if isinstance(got, VSeq) else to_z3(got, parse_type('seq[bytes]'))
+            r1 = c.new_state.rec(c.localv('packet'))
+            return z3.And(fits, gz == ITEMS_FN[1](data, m, ln), r1.fields['_idx'].z == ln)
         if lw is None:
             return z3.BoolVal(True)
         r = c.new_state.rec(c.argv('packet'))
@@ -1747,8 +1828,10 @@ def _mk_request_prefix(key, name):
         params=dict(packet='obj:SSHPacket'), classes=SRV_PREFIX_CLASSES,
         inline=dict(PACKET_INLINE), truthy=PACKET_TRUTHY, region=prefix_region,
         stubs={'SFTPAttrs.decode': attrs_decode_stub},
-        loops={1: LoopSpec(invariant=lambda c: packet_wf(c, c.argv('packet')))},
-        local_types={'compose_paths': 'seq[bytes]'},
+        # the loop reads from the packet: the packet object is re-created at the cut (havoc_locals) and the
+        # invariant says what is known of it - same payload, read position inside it and not moved back
+        loops={1: _packet_loop('packet', 'compose_paths', 1)},
+        local_types={'compose_paths': 'seq[bytes]', 'packet': 'obj:SSHPacket'},
         requires=lambda c: z3.And(packet_wf(c, c.argv('packet')), c.old('_version') >= 3, c.old('_version') <= 6),
         ensures=[('whole-body-consumed-before-v6', whole_body_consumed if key not in V6_ONLY_REQUESTS
                   else (lambda c: z3.BoolVal(True))),
@@ -1947,6 +2030,27 @@ def _up_to_version_assignment(fn):
     raise Unsupported('no assignment to self._version')
 
 
+def extensions_as_sent(c):
+    """the extension pairs collected are exactly the name/data string pairs that follow the version number, in
+    order (whenever pairs were read at all: FXP_VERSION always, FXP_INIT for version 3)"""
+    recvd = c.events('recv')
+    if len(recvd) != 1 or not c.has_local('rcvd_extensions') or c.events('cleanup'):
+        return z3.BoolVal(True)
+    r0 = c.new_state.rec(recvd[0][1][0])
+    data, ln = r0.fields['_packet'].z, r0.fields['_len'].z
+    got = c.ex.deref(c.new_state, c.localv('rcvd_extensions'))
+    gz = got.z if isinstance(got, VSeq) else to_z3(got, parse_type('seq[tuple[bytes,bytes]]'))
+    return gz == ITEMS_FN[2](data, z3.IntVal(5), ln)
+
+
+def extensions_lemma(c):
+    recvd = c.events('recv')
+    if len(recvd) != 1:
+        return []
+    r0 = c.new_state.rec(recvd[0][1][0])
+    return items_unfold(r0.fields['_packet'].z, z3.IntVal(5), r0.fields['_len'].z, 2)
+
+
 def version_invariant(c):
     return z3.And(c.new('_version') >= 3, c.new('_version') <= 6)
 
@@ -1968,12 +2072,14 @@ server_version_exchange = Spec(
     inline=dict(PACKET_INLINE), truthy=PACKET_TRUTHY, region=_up_to_version_assignment,
     stubs={'self.recv_packet': exchange_recv_stub, 'self.log_received_packet': noop(), 'self._log_extensions': noop(),
            'self._cleanup': noop('cleanup')},
-    loops={1: LoopSpec(invariant=lambda c: packet_wf(c, c.localv('packet')))},
-    local_types={'rcvd_extensions': 'seq[tuple[bytes,bytes]]'},
+    loops={1: _packet_loop('packet', 'rcvd_extensions', 2)},
+    local_types={'rcvd_extensions': 'seq[tuple[bytes,bytes]]', 'packet': 'obj:SSHPacket'},
     # the configured version (constructor argument, validated by the options layer)
     requires=lambda c: z3.And(c.old('_version') >= 3, c.old('_version') <= 6, z3.Not(c.oldv('_reader').isnone)),
     ensures=[('session continues only with a version in 3..6', lambda c: z3.Or(
-        z3.BoolVal(len(c.events('cleanup')) == 1), version_invariant(c)))],
+        z3.BoolVal(len(c.events('cleanup')) == 1), version_invariant(c))),
+        ('extension pairs read as sent', extensions_as_sent)],
+    lemmas=extensions_lemma,
     raises={'IncompleteReadError': True, 'CancelledError': True})
 server_version_exchange.no_replay = True
 
@@ -1983,10 +2089,12 @@ client_version_exchange = Spec(
     inline=dict(PACKET_INLINE), truthy=PACKET_TRUTHY, region=_up_to_version_assignment,
     stubs={'self.recv_packet': may_raise(exchange_recv_stub, 'ConnectionLost'), 'self.log_received_packet': noop(),
            'self._log_extensions': noop(), 'self.send_packet': cli_send_packet_stub},
-    loops={1: LoopSpec(invariant=lambda c: packet_wf(c, c.localv('resp')))},
-    local_types={'rcvd_extensions': 'seq[tuple[bytes,bytes]]'},
+    loops={1: _packet_loop('resp', 'rcvd_extensions', 2)},
+    local_types={'rcvd_extensions': 'seq[tuple[bytes,bytes]]', 'resp': 'obj:SSHPacket'},
     requires=lambda c: z3.And(c.old('_version') >= 3, c.old('_version') <= 6, z3.Not(c.oldv('_reader').isnone)),
-    ensures=[('session continues only with a version in 3..6', version_invariant)],
+    ensures=[('session continues only with a version in 3..6', version_invariant),
+             ('extension pairs read as sent', extensions_as_sent)],
+    lemmas=extensions_lemma,
     raises={'SFTPBadMessage': True, 'SFTPConnectionLost': True, 'SFTPError': True, 'CancelledError': True})
 client_version_exchange.no_replay = True
 
